@@ -116,12 +116,18 @@ def irrLowerC (g : List F) (v : F) : Option F :=
   let c := ssRight g v
   if c = 0 then none else g[c - 1]?
 
+/-- all answers, or `none` as soon as one is missing -/
+def optAll {α : Type} : List (Option α) → Option (List α)
+  | [] => some []
+  | none :: _ => none
+  | some a :: rest => (optAll rest).map (a :: ·)
+
 /-- array arguments: one element without an answer makes the whole call raise -/
-def irrLowerArr (g vs : List F) : Option (List F) := vs.mapM (irrLowerC g)
-def irrUpperArr (g vs : List F) : Option (List F) := vs.mapM (irrUpper g)
+def irrLowerArr (g vs : List F) : Option (List F) := optAll (vs.map (irrLowerC g))
+def irrUpperArr (g vs : List F) : Option (List F) := optAll (vs.map (irrUpper g))
 
 variable [Add F] [Div F] [OfNat F 2]
-def irrNearestArr (g vs : List F) : Option (List F) := vs.mapM (irrNearest g)
+def irrNearestArr (g vs : List F) : Option (List F) := optAll (vs.map (irrNearest g))
 
 end irr2
 
